@@ -118,8 +118,8 @@ def msTrace (vbr bitrate rateSum nbStreams fs frameSize maxDataBytes totSize s :
   let m := msMaxBytes vbr bitrate rateSum nbStreams fs frameSize maxDataBytes
   let cm := msCurrMax nbStreams fs frameSize m totSize s
   [nbStreams * 2, nbStreams * 2 - 1, fs / frameSize, msSmallest nbStreams fs frameSize,
-   3 * rateSum, 3 * bitrate, 3 * 8 * fs, 3 * 8 * fs / frameSize, 3 * rateSum / (3 * 8 * fs / frameSize),
-   3 * bitrate / (3 * 8 * fs / frameSize), m,
+   3 * rateSum, 3 * bitrate, 3 * 8 * fs, 3 * 8 * fs / frameSize, cdiv (3 * rateSum) (3 * 8 * fs / frameSize),
+   cdiv (3 * bitrate) (3 * 8 * fs / frameSize), m,
    m - totSize, nbStreams - s, nbStreams - s - 1, 2 * (nbStreams - s - 1), 2 * (nbStreams - s - 1) - 1,
    m - totSize - max 0 (2 * (nbStreams - s - 1) - 1), 8 * fs, 8 * fs / frameSize, cm * (8 * fs / frameSize), cm]
 
